@@ -12,6 +12,7 @@ import SkVerif.Lemmas.PanelPath
 import SkVerif.Lemmas.PanelNames
 import SkVerif.Lemmas.Panel2d
 import SkVerif.Lemmas.PanelLong
+import SkVerif.Lemmas.PanelPath5
 namespace SkVerif.C15
 open SkVerif SkVerif.Panel SkVerif.Panel.Spec SkVerif.Panel.Lem
 
@@ -501,6 +502,33 @@ theorem arr3_nested_duplicate_names_drop_columns :
       = .ok ⟨[(Name.s "a", [Cell.ser [3, 4]])]⟩ := by
   rfl
 
+/-! ### every path over all five containers -/
+
+/-- A conversion path of ANY length over nested frame, 3-D array, multi-index frame, long table
+and 2-D table whose bookkeeping `path5` is defined (arguments fit, names distinct and not
+reserved) returns the canonical container of the final shape holding the panel the bookkeeping
+predicts: the SAME panel, except that a long table hands the variables back in sorted-name order
+(`sortVarsPanel`, every name with its own data) and a 2-D table read back is one variable of
+length `c·t` (`panelOfRows`).  The invariant (rectangular panel of the recorded dimensions, fitting
+names) holds at the end, so paths compose. -/
+theorem path5_preserves_panel [DecidableEq ν] (ops : NameOps ν) (reserved : ν → Bool)
+    (hd : ∀ c, (defaultNames ops c).Nodup) (hnle : TotalLE (fun a b : ν => !ops.lt b a))
+    {n : Nat} (hn : 0 < n) (hs : List (Hop ν)) (st st' : PState ν α) (inv : Inv n st)
+    (hp : path5 ops reserved hs st = some st') :
+    applyPath ops reserved hs (holds5 st.shape st.X) = .ok (holds5 st'.shape st'.X) ∧ Inv n st' :=
+  applyPath5_holds ops reserved hd hnle hn hs st st' inv hp
+
+/-- path independence over all five containers: two paths of any lengths from the same container
+whose bookkeeping ends in the same state return the same result -/
+theorem path5_independence [DecidableEq ν] (ops : NameOps ν) (reserved : ν → Bool)
+    (hd : ∀ c, (defaultNames ops c).Nodup) (hnle : TotalLE (fun a b : ν => !ops.lt b a))
+    {n : Nat} (hn : 0 < n) (p q : List (Hop ν)) (st st1 st2 : PState ν α) (inv : Inv n st)
+    (hp : path5 ops reserved p st = some st1) (hq : path5 ops reserved q st = some st2)
+    (hs : st1.shape = st2.shape) (hx : st1.X = st2.X) :
+    applyPath ops reserved p (holds5 st.shape st.X) = applyPath ops reserved q (holds5 st.shape st.X) := by
+  rw [(applyPath5_holds ops reserved hd hnle hn p st st1 inv hp).1,
+    (applyPath5_holds ops reserved hd hnle hn q st st2 inv hq).1, hs, hx]
+
 /-! ### non-vacuity: concrete panels / frames meeting the hypotheses -/
 
 example : Rect3 2 2 3 ([[[1, 2, 3], [4, 5, 6]], [[7, 8, 9], [10, 11, 12]]] : Arr3 Nat) := by
@@ -517,5 +545,13 @@ example : pathShape nameOps 2 [Hop.nm none none, Hop.m3 (some "instance") (some 
   simp [pathShape, hopShape]
 example : fromNestedTo3d (nestedOf ["b", "a"] true ([[[1, 2], [3, 4]], [[5, 6], [7, 8]]] : Arr3 Nat))
     = .ok [[[1, 2], [3, 4]], [[5, 6], [7, 8]]] := by rfl
+
+example : (path5 nameOps reservedName [Hop.nl none none none, Hop.ln "index" "time_index" "column" none,
+    Hop.n2 true, Hop.t2n none false, Hop.n3]
+    (⟨.tri (.nested [Name.s "b", Name.s "a"] true), 2, 2, [[[1, 2], [3, 4]]]⟩ : PState Name Nat)).map
+      (fun st => (st.shape, st.c, st.t, st.X))
+    = some (.tri .arr3, 1, 4, [[[3, 4, 1, 2]]]) := by rfl
+example : Inv 1 (⟨.tri (.nested [Name.s "b", Name.s "a"] true), 2, 2, [[[1, 2], [3, 4]]]⟩ : PState Name Nat) :=
+  ⟨by simp [Rect3], by decide, by decide, by simp [Shape5.ok, Shape.ok]⟩
 
 end SkVerif.C15
